@@ -30,8 +30,12 @@ pub fn horizon_us(cfg: &RingCfg, cap_slots: i64) -> i64 {
 
 fn ring_case(t: &mut Tape, obs: &mut Obs, cap_slots: i64) -> CaseResult {
     let cfg = gen_ring_cfg(t, &GenOpts { min_n: 2, max_n: 5, max_hsa_extra: 40, late_joiners: true });
-    let mut sim = Sim::new(cfg.clone(), 0);
+    let mut sim = Sim::new(cfg.clone(), 1);
     let apps = attach_apps(&mut sim, t);
+    let passive = crate::apps::add_passive_peers(&mut sim, t);
+    if passive.iter().any(|a| *a < cfg.hsa) {
+        obs.label("passive-stations-inside-gap");
+    }
     let mut end = horizon_us(&cfg, cap_slots);
     // a station may leave the bus while it is idle and join again later (joining an active bus)
     let mut online: Vec<Vec<i64>> = cfg.stations.iter().map(|s| vec![s.online_at_us * 1000]).collect();
@@ -109,7 +113,7 @@ fn ring_case(t: &mut Tape, obs: &mut Obs, cap_slots: i64) -> CaseResult {
     if ring_formed && stats.replies >= 1 {
         obs.nontrivial(fingerprint(&(format!("{:?}", cfg.baud), &sorted, cfg.hsa, cfg.gap, cfg.slot_bits, format!("{:?}", cfg.schedule))));
     }
-    obs.sample(|| json!({"config": cfg.describe(), "applications": apps, "transmissions": b.trace.len(), "tokens": stats.tokens, "gap_replies": stats.replies}));
+    obs.sample(|| json!({"config": cfg.describe(), "passive_stations": passive, "applications": apps, "transmissions": b.trace.len(), "tokens": stats.tokens, "gap_replies": stats.replies}));
     Ok(())
 }
 
